@@ -568,7 +568,10 @@ static void op_meta(int argc, char** a)
 		sz_params para; memset(&para, 0, sizeof para); para.errorBoundMode = mode; para.absErrBound = absb; para.relBoundRatio = rel;
 		cb = SZ_compress_customize_threadsafe("SZ", &para, ty, data, r[0], r[1], r[2], r[3], r[4], &cs, &cst);
 	} else
-		cb = SZ_compress_args(ty, data, &cs, mode, absb, rel, 0, r[0], r[1], r[2], r[3], r[4]);
+	{	/* "w<bits>" in the flow argument: the point-wise relative ratio of the call (the combined modes 11..14 take it next to the other bounds) */
+		const char* wp = strchr(flow, 'w'); double pwr = wp ? dbl_of_bits(wp + 1) : 0.0;
+		cb = SZ_compress_args(ty, data, &cs, mode, absb, rel, pwr, r[0], r[1], r[2], r[3], r[4]);
+	}
 	if (!cb) { printf("st=null\n"); return; }
 	int lc = cs >= 4 ? is_lossless_compressed_data(cb, cs) : -1;
 	printf("out=%zx lc=%d ", cs, lc); fflush(R);
